@@ -2,6 +2,9 @@
 import z3
 
 
+UNSIGNED_VARS = set()      # names of narrow bit-vector variables that hold unsigned values (model extraction)
+
+
 class Unsupported(Exception):
     """The evaluator met a construct it does not model: the VC is inconclusive."""
 
